@@ -752,12 +752,44 @@ func parentMain(spec *Spec, tier string, only []string) int {
 		path := filepath.Join(root(), "replays", fmt.Sprintf("%s-%s.json", spec.ID, hex.EncodeToString(h[:6])))
 		rec := map[string]any{"property": spec.ID, "tier": tier, "violation": v, "count_in_run": violN[s]}
 		b, _ := json.MarshalIndent(rec, "", " ")
-		os.WriteFile(path, b, 0o644)
+		if nViol <= 300 {
+			os.WriteFile(path, b, 0o644)
+		}
 		if nViol <= 40 {
 			fmt.Printf("VIOLATION property=%s replay=%s\n", spec.ID, path)
 			fmt.Printf("  sig=%s\n  %s\n  cases_with_this_signature=%d\n", s, v.Msg, violN[s])
 		} else if nViol == 41 {
-			fmt.Printf("(further violation signatures are written to %s but not printed)\n", filepath.Join(root(), "replays"))
+			fmt.Printf("(further violation signatures are not printed; replay files are written for the first 300)\n")
+		}
+	}
+	if nViol > 40 {
+		groups := map[string]int{}
+		example := map[string]string{}
+		for _, s := range sigs {
+			if _, ok := open[s]; ok {
+				continue
+			}
+			parts := strings.SplitN(s, ":", 4)
+			if len(parts) > 3 {
+				parts = parts[:3]
+			}
+			k := strings.Join(parts, ":")
+			groups[k]++
+			if e, ok := example[k]; !ok || len(viol[s].Msg) < len(e) {
+				example[k] = viol[s].Msg
+			}
+		}
+		keys := make([]string, 0, len(groups))
+		for k := range groups {
+			keys = append(keys, k)
+		}
+		sort.Slice(keys, func(i, j int) bool { return groups[keys[i]] > groups[keys[j]] })
+		fmt.Printf("violation signature groups (%d signatures):\n", nViol)
+		for i, k := range keys {
+			if i >= 40 {
+				break
+			}
+			fmt.Printf("  %6d %s\n         e.g. %s\n", groups[k], k, tail(example[k], 400))
 		}
 	}
 	osigs := make([]string, 0, len(open))
